@@ -272,6 +272,31 @@ def sample_cases(paths, want=3, maxev=12):
     return out
 
 
+SUSP_RE = re.compile(rb'"ev":"dec".*?"st":"([A-Za-z0-9]+)","status":"([A-Za-z0-9]+)"')
+
+
+def suspension_points(paths, limit_bytes=400_000_000):
+    """(decoder state, exit status) pairs seen in dec events (from the verif_state hook)."""
+    seen = {}
+    budget = limit_bytes
+    for p in paths:
+        try:
+            with open(p, "rb") as f:
+                for line in f:
+                    budget -= len(line)
+                    if budget < 0:
+                        return seen
+                    if b'"ev":"dec"' not in line[:400] and b'"ev":"dec"' not in line:
+                        continue
+                    m = SUSP_RE.search(line)
+                    if m:
+                        k = m.group(1).decode() + "/" + m.group(2).decode()
+                        seen[k] = seen.get(k, 0) + 1
+        except Exception:
+            pass
+    return seen
+
+
 def extract_case(paths, case_id, dest):
     """Copy the events of one case out of sharded traces."""
     for p in paths:
@@ -495,6 +520,10 @@ class Check:
             "notes": self.notes[:50],
             "exhaustive": False,
         }
+        sp = suspension_points(paths)
+        if sp:
+            cov["decoder_suspension_points_reached"] = dict(sorted(sp.items()))
+            cov["decoder_suspension_points_distinct"] = len(sp)
         if explanation:
             cov["explanation"] = explanation
         cov.update(self.extra_cov)
